@@ -206,11 +206,14 @@ func (m *machine) runnable() []*gor {
 // scheduleNext is called by a goroutine that cannot continue (blocked or done).
 func (m *machine) scheduleNext(cur *gor) {
 	for {
-		cands := m.runnable()
+		cands := m.rrOrder(m.runnable(), cur)
 		if len(cands) > 0 {
 			i := 0
-			if len(cands) > 1 {
-				i = m.choose(len(cands), "sched")
+			// delay-bounded scheduling: the default successor is the next runnable goroutine in
+			// round-robin order; choosing the i-th one instead costs i units of the delay budget
+			if n := min(len(cands), m.preemptLeft+1); n > 1 {
+				i = m.choose(n, "sched")
+				m.preemptLeft -= i
 			}
 			m.schedLog(cands[i])
 			m.switchTo(cur, cands[i])
@@ -222,6 +225,22 @@ func (m *machine) scheduleNext(cur *gor) {
 		// nothing can run
 		m.deadlock()
 	}
+}
+
+// rrOrder orders runnable goroutines round-robin starting after cur.
+func (m *machine) rrOrder(gs []*gor, cur *gor) []*gor {
+	if cur == nil || len(gs) < 2 {
+		return gs
+	}
+	var after, before []*gor
+	for _, g := range gs {
+		if g.id > cur.id {
+			after = append(after, g)
+		} else {
+			before = append(before, g)
+		}
+	}
+	return append(after, before...)
 }
 
 func (m *machine) schedLog(g *gor) {
@@ -255,7 +274,7 @@ func (m *machine) yieldPoint(fr *frame, kind string) {
 	if m.cfg.schedKinds != nil && !m.cfg.schedKinds[kind] {
 		return
 	}
-	others := m.runnable()
+	others := m.rrOrder(m.runnable(), m.cur)
 	nt := 0
 	var tms []*timer
 	if m.cfg.timersEager {
@@ -265,11 +284,11 @@ func (m *machine) yieldPoint(fr *frame, kind string) {
 	if len(others)+nt == 0 {
 		return
 	}
-	c := m.choose(1+len(others)+nt, "preempt:"+kind)
+	c := m.choose(min(1+len(others)+nt, m.preemptLeft+1), "preempt:"+kind)
 	if c == 0 {
 		return
 	}
-	m.preemptLeft--
+	m.preemptLeft -= c
 	cur := m.cur
 	if c <= len(others) {
 		cur.state = gRunnable
